@@ -42,7 +42,7 @@ type Scenario struct {
 	Faults  []Fault       `json:"faults"`
 	Cancel  int           `json:"cancel"`  // cancel the context at this gate step (0: never, -1: before the call)
 	CMode   string        `json:"cmode"`   // "" / "before": before releasing the step's operation; "after": after its effect
-	SrcKind string        `json:"srckind"` // memory (default) | oci | remote (Referrers API) | remotetag (referrers tag schema)
+	SrcKind string        `json:"srckind"` // memory (default) | oci | file | filecas (file store with ForceCAS) | remote (Referrers API) | remotetag (referrers tag schema)
 	DstKind string        `json:"dstkind"` // memory (default) | oci | file | remote
 	CbErr   []Fault       `json:"cberr"`   // callback errors: op in pre post skipped
 	Prefix  []int         `json:"prefix"`  // schedule: choice per step, then seeded random
@@ -171,7 +171,8 @@ func RunOne(t *testing.T, sc *Scenario, tr *vh.Tracer) Result {
 		if sc.Mount != 0 {
 			gopts.OnMounted = cb("mounted")
 			gopts.MountFrom = func(context.Context, ocispec.Descriptor) ([]string, error) {
-				return [][]string{nil, {srcRepo}, {"team/none", srcRepo}, {"team/none"}}[sc.Mount], nil
+				return [][]string{nil, {srcRepo}, {"team/none", srcRepo}, {"team/none"}, {"team/none", "team/other", "team/none"},
+					{"team/none", srcRepo, "team/none"}}[sc.Mount], nil
 			}
 		}
 
@@ -347,6 +348,14 @@ func newSrc(t *testing.T, kind string, reg *regfake.Registry) (srcStore, error) 
 	switch kind {
 	case "oci":
 		return oci.New(t.TempDir())
+	case "file", "filecas":
+		fs, err := file.New(t.TempDir())
+		if err != nil {
+			return nil, err
+		}
+		fs.ForceCAS = kind == "filecas"
+		t.Cleanup(func() { fs.Close() })
+		return fs, nil
 	case "remote", "remotetag":
 		// content is pushed through the client (so that, without the Referrers API, it builds the referrers-tag
 		// indexes itself)
